@@ -26,7 +26,8 @@ def ids(cards):
 class Policy(BiddingSystem, PlayingSystem):
     """Deterministic per-seat policies: decisions depend only on the seat's own replica and its own PRNG."""
 
-    def __init__(self, seed, style, fault=None):
+    def __init__(self, seed, style, fault=None, passout_boards=()):
+        self.passout_boards = set(passout_boards)
         self.r = random.Random(seed)
         self.style = style
         self.fault = fault or {}
@@ -48,6 +49,8 @@ class Policy(BiddingSystem, PlayingSystem):
             return Bid.int_to_bid(self.r.choice(illegal)) if illegal else Bid.Pass
         legal = [i for i in range(38) if env.available_bid[i] == 1]
         u = self.r.random()
+        if self.board in self.passout_boards:      # the whole table passes this board out (same list for the four seats)
+            return Bid.Pass
         nb = len(env.bid_history)
         if self.style == 'pass':
             return Bid.Pass
@@ -261,7 +264,7 @@ def run_session(k):
         name = f'cli{i}'
         S.bind(name)
         try:
-            pol = Policy(a.get('policy_seed', 0), a.get('style', 'competitive'), a.get('fault'))
+            pol = Policy(a.get('policy_seed', 0), a.get('style', 'competitive'), a.get('fault'), a.get('passout_boards', ()))
             c = VClient(SEATS[a['seat']], a['team'], pol, pol, 'x', 0, variant=a.get('variant'), vseed=a.get('policy_seed', 0) + 7, fault=a.get('fault'))
             c.PROTOCOL_VERSION = a.get('version', 18)
             c._socket = VSock(c, name=name)
